@@ -397,12 +397,6 @@ def selectWeight {ω : Type} (ctor step : Option ω) : Option ω :=
   | some w => some w
   | Option.none => ctor
 
-/-- `weight = weight if isinstance(weight, (tuple, list)) else [weight]` -/
-def weightList {ω : Type} : Arg ω → Option (List ω)
-  | .none => Option.none
-  | .one w => some [w]
-  | .many ws => some (ws.filterMap id)
-
 /-- `RobustModel.residual`: `output if target is None else output - target` -/
 def residualOf (out : Vec α) (target : Option (Vec α)) : Vec α :=
   match target with
@@ -453,5 +447,55 @@ def runCalls {σ : Type} (cs : List (σ → Option σ)) (s : σ) : σ := cs.fold
 /-- two optimizers (an original and its copy), calls tagged by the one they are made on (`true` = the first) -/
 def runTwins {σ : Type} (cs : List (Bool × (σ → Option σ))) (s : σ × σ) : σ × σ :=
   cs.foldl (fun s c => if c.1 then (callOrKeep c.2 s.1, s.2) else (s.1, callOrKeep c.2 s.2)) s
+
+/-! ## a whole step from ONE parameter list
+
+In the code the number of columns, the column blocks of `J`, the residual shapes and the parameters that are updated
+all come from the same tensors (`optimizer.py`: `R = list(self.model(input, target))`, `J = modjac(...)`,
+`params = dict(self.model.named_parameters())`, `pg['params']`).  `RawRes` is what the user's model and `modjac`
+(property C04) deliver for one residual tensor at the current parameters. -/
+
+structure RawRes (α : Type) where
+  /-- `r.numel()` -/
+  rows : Nat
+  /-- the residual, flattened row-major -/
+  R : Vec α
+  /-- `blk j r o`: entry `(r, o)` of the Jacobian block of named parameter `j`, reshaped to `rows × p_j.numel()` -/
+  blk : Nat → Nat → Nat → α
+  /-- `r.shape` -/
+  rshape : List Nat
+
+/-- `J = [self.model.flatten_row_jacobian(Jr, params_values) for Jr in J]` -/
+def assemble (ps : List (Param α)) (raw : List (RawRes α)) : List (Res α) :=
+  raw.map fun r => ⟨r.rows, r.R, flattenRowJac (jacSpec ps) r.blk⟩
+
+/-- the GN system of a step on the parameter list `ps`: `n = Σ numel of the trainable parameters` -/
+def gnSystemOf (ps : List (Param α)) (raw : List (RawRes α)) (cs : List (Res α → Res α))
+    (weights : Option (List (List Nat × Vec α))) : Option (Sys α) :=
+  gnSystem (trainTotal ps) cs (assemble ps raw) (raw.map (·.rshape)) weights
+
+/-- the LM system of trial `lams.length` of a step on the parameter list `ps` -/
+def lmSystemOf (ps : List (Param α)) (raw : List (RawRes α)) (lo hi : α) (cs : List (Res α → Res α))
+    (weights : Option (List (List Nat × Vec α))) (lams : List α) : Option (Sys α) :=
+  lmSystem (trainTotal ps) lo hi cs (assemble ps raw) (raw.map (·.rshape)) weights lams
+
+/-- `GaussNewton.step`: residuals and Jacobian blocks at the current parameters, system, solver, update -/
+def gnStep (eps : α) (model : List (Param α) → List (RawRes α)) (cs : List (Res α → Res α))
+    (weights : Option (List (List Nat × Vec α))) (solve : Sys α → Option (Nat × Vec α))
+    (ps : List (Param α)) : Option (List (Param α)) :=
+  gnCall eps (fun ps => gnSystemOf ps (model ps) cs weights) solve ps
+
+/-- One LM trial.  `raw` was computed once at the entry of `step` (parameter list `ps0`); the trial solves the system of
+the current damping history and calls `update_parameter(params, D)` on the current parameters `ps` (`ps0` itself in the
+first trial, `ps0` restored by `-D` after a rejection).  A solver that raises gives `none`: LM prints the message and
+breaks, the parameters stay. -/
+def lmTrial (eps : α) (ps0 : List (Param α)) (raw : List (RawRes α)) (lo hi : α) (cs : List (Res α → Res α))
+    (weights : Option (List (List Nat × Vec α))) (lams : List α) (solve : Sys α → Option (Nat × Vec α))
+    (ps : List (Param α)) : Option (List (Param α)) :=
+  gnCall eps (fun _ => lmSystemOf ps0 raw lo hi cs weights lams) solve ps
+
+/-- the rejection of a trial: `update_parameter(params, -D)` -/
+def lmReject (eps : α) (ps : List (Param α)) (len : Nat) (D : Vec α) : Option (List (Param α)) :=
+  stepUpdate eps ps len fun i => -D i
 
 end PP.GNStep
